@@ -466,6 +466,7 @@ Inductive lexeme_of (tk : token) (lx s' : list N) : Prop :=
     peek_is is_name_continue s' = false ->
     tkind tk = K_NAME -> thasval tk = true -> tvalue tk = lx -> lexeme_of tk lx s'
 | L_num fl : peek_is (fun c => is_digit c || (c =? 45)) lx = true -> numstop s' ->
+    Forall (fun c => num_char c = true) lx ->
     (forall pos2 r2, numstop r2 -> read_number pos2 (lx ++ r2) = Ok ((pos2 + length lx)%nat, fl, r2)) ->
     tkind tk = (if fl then K_FLOAT else K_INT) -> thasval tk = true -> tvalue tk = lx -> lexeme_of tk lx s'
 | L_string body : lx = 34 :: body -> body <> [] -> starts2 34 34 (body ++ s') = false ->
@@ -530,7 +531,9 @@ Proof.
     destruct (punct_kind_some _ _ Epk) as (_ & _ & _ & -> & _). eapply L_punct; eauto. }
   destruct (is_digit c || (c =? 45)) eqn:Ed.
   { destruct (read_number (cpos cu1) (c :: t)) as [[[e fl] rest]| | |] eqn:En; try discriminate.
+    pose proof (read_number_nadv _ _ _ _ _ En) as (k & Hek & _ & Hnc).
     apply read_number_loc in En as (a & Ea & -> & Hhd & Hstop & L).
+    assert (Hk : k = length a) by lia. subst k. rewrite Ea, firstn_app_length in Hnc.
     replace (firstn (cpos cu1 + length a - cpos cu1) (c :: t)) with a in H
       by (rewrite Ea; replace (cpos cu1 + length a - cpos cu1)%nat with (length a) by lia;
           rewrite firstn_app_length; reflexivity).
@@ -548,6 +551,45 @@ Proof.
   apply N.eqb_eq in E1, E2. subst x y. inversion H; subst tk cu' s'.
   apply (W [46; 46; 46]); cbn [mk tstart tend cpos tkind length]; try lia; [reflexivity|].
   cbn. apply L_spread; reflexivity.
+Qed.
+
+Lemma num_char_not_ignored c : num_char c = true -> is_ignored_char c = false.
+Proof.
+  intros H.
+  assert (R : 48 <= c <= 57 \/ c = 45 \/ c = 46 \/ c = 69 \/ c = 101 \/ c = 43).
+  { unfold num_char in H. repeat (apply orb_true_iff in H as [H|H]; [|apply N.eqb_eq in H; lia]).
+    apply digit_range in H. lia. }
+  unfold is_ignored_char, is_ws_ignored, LF, CR.
+  repeat match goal with |- context [?a =? ?b] => destruct (N.eqb_spec a b); [lia|] end. reflexivity.
+Qed.
+
+Lemma name_continue_not_ignored c : is_name_continue c = true -> is_ignored_char c = false.
+Proof.
+  intros H.
+  assert (R : 48 <= c <= 57 \/ 65 <= c <= 90 \/ 97 <= c <= 122 \/ c = 95).
+  { unfold is_name_continue in H. apply orb_true_iff in H as [H|H]; [|apply N.eqb_eq in H; lia].
+    apply orb_true_iff in H as [H|H]; [|apply digit_range in H; lia].
+    assert (H' : is_name_start c = true) by (unfold is_name_start; rewrite H; reflexivity).
+    apply name_start_range in H'. lia. }
+  unfold is_ignored_char, is_ws_ignored, LF, CR.
+  repeat match goal with |- context [?a =? ?b] => destruct (N.eqb_spec a b); [lia|] end. reflexivity.
+Qed.
+
+(* the lexeme of a punctuator, name or number contains no ignored character *)
+Lemma lexeme_no_ignored tk lx s' : lexeme_of tk lx s' ->
+  tkind tk <> K_STRING -> tkind tk <> K_BLOCK_STRING -> tkind tk <> K_COMMENT ->
+  Forall (fun c => is_ignored_char c = false) lx.
+Proof.
+  intros HL H1 H2 H3.
+  destruct HL as [c -> Hpk _ _ | -> _ _ _ | c b -> Hns Hb _ _ _ _
+                 | fl _ _ Hnc _ _ _ _ | body -> _ _ _ Hk _ | Hk _ _ | Hk]; try congruence.
+  - destruct (punct_kind_some _ _ Hpk) as (Hin & _). apply punct_char_facts in Hin.
+    constructor; [tauto|constructor].
+  - repeat constructor.
+  - constructor.
+    + destruct (range_not_punct c) as (_ & _ & _ & E); [apply name_start_range in Hns; lia|exact E].
+    + eapply Forall_impl; [|exact Hb]. apply name_continue_not_ignored.
+  - eapply Forall_impl; [|exact Hnc]. apply num_char_not_ignored.
 Qed.
 
 (* ================================================================== *)
@@ -627,7 +669,7 @@ Proof.
   assert (Hnp : is_punct_kind (tkind tk) = false -> follow_ok rest2).
   { intros E. destruct Hfol as [F|F]; [congruence|exact F]. }
   destruct HL as [c -> Hpk Hhv Hv | -> Hk Hhv Hv | c b -> Hns Hb Hs' Hk Hhv Hv
-                 | fl Hhd Hs' L Hk Hhv Hv | body -> Hne Hst L Hk Hhv | Hk Hhv Hr | Hk].
+                 | fl Hhd Hs' _ L Hk Hhv Hv | body -> Hne Hst L Hk Hhv | Hk Hhv Hr | Hk].
   - (* punctuator *)
     destruct (punct_kind_some _ _ Hpk) as (Hin & _ & _ & _ & _ & Hnb). rewrite Hnb.
     destruct (punct_char_facts _ Hin) as (E35 & E34 & Eig & _).
@@ -690,7 +732,7 @@ Proof.
   destruct (tkind tk =? K_BLOCK_STRING) eqn:Eb.
   { unfold print_block_string. cbv zeta. rewrite app_length. cbn [TQ length]. lia. }
   destruct HL as [c -> _ _ _ | -> _ _ _ | c b -> _ _ _ _ _ _
-                 | fl Hhd _ _ _ _ _ | body -> _ _ _ _ _ | Hk _ _ | Hk]; cbn [length]; try lia.
+                 | fl Hhd _ _ _ _ _ _ | body -> _ _ _ _ _ | Hk _ _ | Hk]; cbn [length]; try lia.
   - destruct lx; [discriminate|cbn; lia].
   - rewrite Hk in Eb. discriminate.
   - rewrite Hk in Hnc. discriminate.
@@ -717,14 +759,14 @@ Lemma slice_lexeme body p g lx s' : skipn p body = g ++ lx ++ s' ->
   slice body (p + length g) (p + length g + length lx) = lx.
 Proof.
   intros H. unfold slice. replace (p + length g + length lx - (p + length g))%nat with (length lx) by lia.
-  rewrite <- skipn_skipn', H, skipn_app_length. apply firstn_app_length.
+  rewrite <- (skipn_skipn' (length g) p body), H, skipn_app_length. apply firstn_app_length.
 Qed.
 
-Lemma suffix_step body p g lx s' : skipn p body = g ++ lx ++ s' ->
+Lemma suffix_step (body : list N) p g lx s' : skipn p body = g ++ lx ++ s' ->
   skipn (p + length g + length lx) body = s'.
 Proof.
-  intros H. rewrite <- Nat.add_assoc, <- skipn_skipn', H.
-  rewrite <- skipn_skipn', skipn_app_length. apply skipn_app_length.
+  intros H. rewrite <- Nat.add_assoc, <- (skipn_skipn' (length g + length lx) p body), H.
+  rewrite <- (skipn_skipn' (length lx) (length g)), skipn_app_length. apply skipn_app_length.
 Qed.
 
 Lemma token_text_retext body cu s tk g lx s' :
@@ -781,7 +823,7 @@ Proof.
       destruct (IH body cu' s' np ts' Hbody' Hsc' El) as (out' & Eo & Hfo & Hre). rewrite Eo.
       set (sep := sep_before last (tkind tk)).
       assert (Etxt : token_text body tk = retext tk lx)
-        by (eapply token_text_retext; eauto).
+        by exact (token_text_retext body cu s tk g lx s' Hbody Es Hst Hen).
       rewrite Etxt. set (txt := retext tk lx).
       exists (sep ++ txt ++ out'). split; [reflexivity|].
       assert (Hscv : tkind tk = K_BLOCK_STRING -> scalars (tvalue tk)).
@@ -789,6 +831,11 @@ Proof.
       assert (Hfol : is_punct_kind (tkind tk) = true \/ follow_ok out').
       { destruct (is_punct_kind (tkind tk)) eqn:Ep; [left; reflexivity|right]. apply Hfo. reflexivity. }
       assert (Hntxt : (1 <= length txt)%nat) by (eapply retext_nonempty; eauto).
+      assert (Hni : tkind tk <> K_STRING -> tkind tk <> K_BLOCK_STRING ->
+                    Forall (fun c => is_ignored_char c = false) txt).
+      { intros N1 N2. unfold txt, retext.
+        destruct (tkind tk =? K_BLOCK_STRING) eqn:Eb; [apply N.eqb_eq in Eb; congruence|].
+        apply (lexeme_no_ignored tk lx s' Hcls N1 N2). intros E. rewrite E in Ec. discriminate. }
       split.
       { (* what follows a non-punctuator *)
         intros ->. unfold sep, sep_before. cbn [andb].
@@ -796,12 +843,11 @@ Proof.
         - cbn [app follow_ok]. left. reflexivity.
         - apply orb_false_iff in Esp as [Ep Esp]. apply negb_false_iff in Ep. cbn [app].
           destruct Hcls as [c -> Hpk _ _ | _ Hk _ _ | c b _ _ _ _ Hk _ _
-                 | fl _ _ _ Hk _ _ | body0 _ _ _ _ Hk _ | Hk _ _ | Hk];
+                 | fl _ _ _ _ Hk _ _ | body0 _ _ _ _ Hk _ | Hk _ _ | Hk];
             try (rewrite Hk in Ep; try destruct fl; discriminate).
           + unfold txt, retext. destruct (punct_kind_some _ _ Hpk) as (Hin & _ & _ & _ & _ & ->).
             cbn [app follow_ok]. right. exact Hin.
-          + rewrite Hk in Esp. discriminate.
-          + rewrite Hk in Ec. discriminate. }
+          + rewrite Hk in Esp. discriminate. }
       intros fuel2 body2 cu2 Hf Hb2. destruct fuel2 as [|f2]; [cbn in Hf; lia|].
       destruct (relex_gap tk txt out' (fun c2 => relex0 tk lx s' Hcls Ec Hscv c2 out' Hfol) sep cu2
                   (sep_before_cases last (tkind tk)))
@@ -815,9 +861,56 @@ Proof.
         -- unfold significant. cbn [filter]. rewrite Hk2, Ec. cbn [negb map]. fold (significant ts2).
            fold (significant ts'). rewrite Hsig. unfold tok_sig at 1 3. rewrite Hk2, Hv2. reflexivity.
         -- unfold sep. rewrite <- Hk2. apply tight_tok; rewrite ?Hk2; auto.
-           rewrite Hc2 in Ht. rewrite <- Hk2 in Ht. exact Ht.
+           rewrite Hc2 in Ht. exact Ht.
       * fold sep. f_equal. f_equal. f_equal.
-        unfold token_text. rewrite Hk2, Hv2. fold (retext tk lx). unfold txt, retext at 1.
-        destruct (tkind tk =? K_BLOCK_STRING); [reflexivity|].
-        rewrite He2, Hs2. apply (slice_lexeme body2 (cpos cu2) sep _ out'). exact Hb2.
+        unfold token_text. rewrite Hk2, Hv2. unfold txt, retext.
+        destruct (tkind tk =? K_BLOCK_STRING) eqn:Eb; [reflexivity|].
+        assert (Hb3 : skipn (cpos cu2) body2 = sep ++ lx ++ out').
+        { rewrite Hb2. unfold txt, retext. rewrite Eb. reflexivity. }
+        rewrite He2, Hs2. replace (length txt) with (length lx) by (unfold txt, retext; rewrite Eb; reflexivity).
+        apply (slice_lexeme body2 (cpos cu2) sep lx out' Hb3).
+Qed.
+
+(* ================================================================== *)
+(* H. the theorems                                                     *)
+(* ================================================================== *)
+
+Lemma strip_ok_lex s out : strip s = Ok out -> exists ts, lex s = Ok ts.
+Proof.
+  unfold strip, lex. intros H.
+  pose proof (strip_loop_lex (S (length s)) s init_cursor s false) as L.
+  destruct (lex_loop (S (length s)) init_cursor s) as [ts| | |]; [exists ts; reflexivity|congruence..].
+Qed.
+
+Lemma strip_all s ts : scalars s -> lex s = Ok ts ->
+  exists out ts2, strip s = Ok out /\ lex out = Ok ts2 /\
+    map tok_sig (significant ts2) = map tok_sig (significant ts) /\
+    tight false 0 out ts2 /\ strip out = Ok out.
+Proof.
+  unfold lex, strip. intros Hsc Hl.
+  destruct (strip_main (S (length s)) s init_cursor s false ts eq_refl Hsc Hl) as (out & Eo & _ & Hre).
+  destruct (Hre (S (length out)) out init_cursor ltac:(lia) eq_refl) as ((ts2 & E2 & Hsig & Ht) & Hid).
+  exists out, ts2. auto.
+Qed.
+
+Theorem strip_preserves_tokens s ts : scalars s -> lex s = Ok ts ->
+  exists out ts2, strip s = Ok out /\ lex out = Ok ts2 /\
+    map tok_sig (significant ts2) = map tok_sig (significant ts).
+Proof.
+  intros Hsc Hl. destruct (strip_all s ts Hsc Hl) as (out & ts2 & H1 & H2 & H3 & _).
+  exists out, ts2. auto.
+Qed.
+
+Theorem strip_idempotent s out : scalars s -> strip s = Ok out -> strip out = Ok out.
+Proof.
+  intros Hsc H. destruct (strip_ok_lex s out H) as (ts & Hl).
+  destruct (strip_all s ts Hsc Hl) as (out1 & ts2 & H1 & _ & _ & _ & H5). congruence.
+Qed.
+
+Theorem strip_tight s out : scalars s -> strip s = Ok out ->
+  exists ts2, lex out = Ok ts2 /\ tight false 0 out ts2.
+Proof.
+  intros Hsc H. destruct (strip_ok_lex s out H) as (ts & Hl).
+  destruct (strip_all s ts Hsc Hl) as (out1 & ts2 & H1 & H2 & _ & H4 & _).
+  assert (out1 = out) by congruence. subst out1. exists ts2. auto.
 Qed.
